@@ -22,7 +22,7 @@ SaNew(name, su, keys) == Step("sa_new", "", FALSE, [name |-> name, suite |-> su,
 ProtectStep(prop, sa, role, m, rnd) ==
   Step("protect", prop, FALSE, [sa |-> sa, role |-> role, msg |-> m, rand |-> rnd],
        IF sa = "none" THEN [panic |-> FALSE, err |-> FALSE, wire |-> EncMsg(Norm(m))]
-                      ELSE [panic |-> FALSE, err |-> FALSE, hdrsame |-> TRUE, orig |-> NormChain(m.payloads), held |-> NormChain(m.payloads)])
+                      ELSE [panic |-> FALSE, err |-> FALSE, hdrsame |-> TRUE, orig |-> NormChain(m.payloads), held |-> NormChain(m.payloads), protheld |-> TRUE])
 AcceptExp(m)  == [panic |-> FALSE, capdiff |-> FALSE, err |-> FALSE, msg |-> Norm(m), decrypts |-> 1]
 RejectExp     == [panic |-> FALSE, capdiff |-> FALSE, err |-> TRUE, decrypts |-> 0]
 PlainExp      == [panic |-> FALSE, capdiff |-> FALSE, decrypts |-> 0, macs |-> 0]
